@@ -14,7 +14,8 @@ Theorem C03_lockstep : forall c, ctx_ok c -> forall xs h,
 Proof. exact int_lockstep. Qed.
 Print Assumptions C03_lockstep.
 
-(* every element within e; in particular exact storage of unpredictable values *)
+(* every element within e (within c x r := x a value of the element type -> |x - r| <= e; the 8/16-bit kernels clamp
+   reconstructions to the type's range, which never moves them away from x); exact storage of unpredictable values *)
 Theorem C03_within_bound_partial : forall c, ctx_ok c -> forall xs h,
   let '(_, _, rs) := enc_int c h xs in Forall2 (within c) xs rs.
 Proof. exact int_within_bound. Qed.
@@ -35,7 +36,7 @@ Print Assumptions C03_fractional_bound_refuted.
 
 (* ... and reconstructions that leave the element type near its extremes *)
 Theorem C03_narrowing_refuted : exists p x,
-  let c := {| e := 3; cap := 32; shape := [100]; ty := ity_of 2 |} in
+  let c := {| e := 3; cap := 32; shape := [100]; ty := ity_of 6 |} in
   match quant_int c [0; 0] p x with
   | Some (q, r) => in_type (ty c) x = true /\ in_type (ty c) p = true /\ in_type (ty c) r = false
   | None => False
